@@ -27,6 +27,8 @@ MUTATORS = {
 
 
 # ------------------------------------------------------------------ values
+from . import cover as _cover
+
 class Val:
     __slots__ = ()
 
@@ -285,6 +287,7 @@ class Interp:
             selfv = VPath((sc.name,), sc)
             selfcls = sc
         fr = Frame(self, func, selfv, selfcls, dict(args or {}), {}, None, None)
+        _cover.deep(func, 'interp')
         sink = Sink()
         self.sinks.append(sink)
         try:
@@ -1438,6 +1441,7 @@ class Interp:
             self.depth_cuts.append(f"recursion {callee.qualname}")
             return UNKNOWN, S
         self.inlined.add(callee.qualname)
+        _cover.deep(callee, 'interp')
         out = set()
         retv: Optional[Val] = None
         self._active.append(akey)
